@@ -3,7 +3,8 @@
 and in step with what is actually built. Run after adding a property to props.py."""
 import json, os
 V = os.path.dirname(os.path.abspath(__file__))
-claims = json.load(open(os.path.join(V, "claims.json")))
+import glob
+claims = {os.path.basename(f)[:-5]: json.load(open(f)) for f in glob.glob(os.path.join(V, "claims.d", "*.json"))}
 ids = [json.loads(l)["id"] for l in open(os.path.join(V, "properties.jsonl"))]
 checks, na = [], []
 for pid in ids:
